@@ -75,108 +75,106 @@ func checkCheckWiring(w *World, r *Result) {
 	})
 	r.cond(genArg != "" && genArg == nameArg, "AGR-C04b", jv.Name, "validators generated and named for the same type", fnPos(w, jv), "codeFor("+genArg+") and functionName("+nameArg+")", "jsonValidations generates validators for "+genArg+" but returns the name for "+nameArg)
 	gt := w.MustFunc("generator/sql.generateTable")
-	ginfo := gt.Pkg.TypesInfo
-	// the JSON branch
+	_ = gt.Pkg.TypesInfo
+	// the JSON branch: `if js, isJSON := f.SQLType.(sql.JSON); isJSON { … }`. What it must do is read over the
+	// branch and the helpers of the package it calls (two levels), a helper's parameters standing for what is passed:
+	// (A) jsonValidations is called once, on that very js; (B) its first result (the validator declarations) is
+	// appended to the output; (C) a CHECK is formatted with SQLTableName(<table>.TableName()), the column's Go field
+	// name twice, and the second result of that same call (the validator's name).
 	good := false
 	var pos = gt.Decl.Pos()
 	ast.Inspect(gt.Decl.Body, func(x ast.Node) bool {
 		is, ok := x.(*ast.IfStmt)
-		if !ok || is.Init == nil || !strings.Contains(es(is.Init.(*ast.AssignStmt).Rhs[0]), "sql.JSON") {
+		if !ok || is.Init == nil {
+			return true
+		}
+		init, ok := is.Init.(*ast.AssignStmt)
+		if !ok || len(init.Rhs) != 1 || !strings.Contains(es(init.Rhs[0]), "sql.JSON") {
 			return true
 		}
 		pos = is.Pos()
-		js := identOf(is.Init.(*ast.AssignStmt).Lhs[0])
-		var declsVar, nameVar *ast.Ident
-		for _, st := range is.Body.List {
-			if as, ok := st.(*ast.AssignStmt); ok && len(as.Lhs) == 2 && len(as.Rhs) == 1 {
-				if call, ok := as.Rhs[0].(*ast.CallExpr); ok && calleeOf(ginfo, call) == jv.Obj && len(call.Args) == 1 && identOf(call.Args[0]) != nil && js != nil && identOf(call.Args[0]).Name == js.Name {
-					declsVar, nameVar = identOf(as.Lhs[0]), identOf(as.Lhs[1])
-				}
-			}
-		}
-		if declsVar == nil || nameVar == nil {
+		js := identOf(init.Lhs[0])
+		ta, ok := ast.Unparen(init.Rhs[0]).(*ast.TypeAssertExpr)
+		if js == nil || !ok {
 			return true
 		}
-		appendedDecls, checkOK := false, false
-		for _, st := range is.Body.List {
-			as, ok := st.(*ast.AssignStmt)
-			if !ok || len(as.Rhs) != 1 {
-				continue
-			}
-			call, ok := as.Rhs[0].(*ast.CallExpr)
-			if !ok || !isBuiltinCall(ginfo, call, "append") {
-				continue
-			}
-			if call.Ellipsis.IsValid() && identOf(call.Args[1]) != nil && identOf(call.Args[1]).Name == declsVar.Name {
-				appendedDecls = true
-			}
-		}
-		// the CHECK text: a Sprintf in the branch, or in a helper of the package called from the branch (the
-		// helper's parameters are then replaced by what the call site passes). Arguments are rendered with
-		// single-definition locals inlined, so `colName := f.Field.Field.Name()` is transparent.
-		checkArgs := func(fi *FuncInfo, scope ast.Node, params map[types.Object]string) {
+		colOwner := strings.TrimSuffix(es(ta.X), ".SQLType") // f
+		jvCalls, jvArgOK, declsFlow, checkOK := 0, false, false, false
+		var scan func(fi *FuncInfo, scope ast.Node, base map[types.Object]string, depth int)
+		scan = func(fi *FuncInfo, scope ast.Node, base map[types.Object]string, depth int) {
 			info := fi.Pkg.TypesInfo
-			sub := inlineLocals(info, fi.Decl)
-			for k, v := range params {
+			sub := inlineLocalsWith(info, fi.Decl, base)
+			for k, v := range base {
 				sub[k] = v
 			}
-			// locals defined from parameters: render again on top of the parameter substitution
-			for k, v := range inlineLocalsWith(info, fi.Decl, params) {
-				sub[k] = v
-			}
+			// (A) the call of jsonValidations and the names of its results
 			ast.Inspect(scope, func(y ast.Node) bool {
-				c2 := sprintfView(info, y)
-				if c2 == nil {
+				as, ok := y.(*ast.AssignStmt)
+				if !ok || len(as.Lhs) != 2 || len(as.Rhs) != 1 {
 					return true
 				}
-				format, vas := verbArgs(info, c2)
-				if !strings.Contains(format, "CHECK (%s(%s))") || len(vas) != 4 {
+				call, ok := as.Rhs[0].(*ast.CallExpr)
+				if !ok || calleeOf(info, call) != jv.Obj || len(call.Args) != 1 {
 					return true
 				}
-				// ALTER TABLE <table> ADD CONSTRAINT <col>_gomacro CHECK (<fn>(<col>))
-				var a [4]string
-				for i := range a {
-					a[i] = render(info, vas[i].arg, sub)
+				jvCalls++
+				if render(info, call.Args[0], sub) == js.Name {
+					jvArgOK = true
 				}
-				jsRoot := ""
-				if init, ok := is.Init.(*ast.AssignStmt); ok {
-					if ta, ok := ast.Unparen(init.Rhs[0]).(*ast.TypeAssertExpr); ok {
-						jsRoot = es(ta.X) // f.SQLType
-					}
-				}
-				colOwner := strings.TrimSuffix(jsRoot, ".SQLType")
-				if strings.HasPrefix(a[0], "gen.SQLTableName(") && strings.HasSuffix(a[0], ".TableName())") && a[2] == nameVar.Name && a[1] == a[3] && a[1] == colOwner+".Field.Field.Name()" {
-					checkOK = true
+				if d, n := identOf(as.Lhs[0]), identOf(as.Lhs[1]); d != nil && n != nil {
+					sub[objOf(info, d)] = "$jvDecls"
+					sub[objOf(info, n)] = "$jvName"
 				}
 				return true
 			})
-		}
-		checkArgs(gt, is.Body, nil)
-		ast.Inspect(is.Body, func(y ast.Node) bool {
-			call, ok := y.(*ast.CallExpr)
-			if !ok {
-				return true
-			}
-			fn := calleeOf(ginfo, call)
-			cf := w.Funcs[fn]
-			if fn == nil || cf == nil || cf.Pkg != gt.Pkg || cf == jv || cf.Decl.Body == nil {
-				return true
-			}
-			params := map[types.Object]string{}
-			gsub := inlineLocals(ginfo, gt.Decl)
-			k := 0
-			for _, f := range cf.Decl.Type.Params.List {
-				for _, nm := range f.Names {
-					if k < len(call.Args) {
-						params[cf.Pkg.TypesInfo.Defs[nm]] = render(ginfo, call.Args[k], gsub)
-					}
-					k++
+			ast.Inspect(scope, func(y ast.Node) bool {
+				call, ok := y.(*ast.CallExpr)
+				if !ok {
+					return true
 				}
-			}
-			checkArgs(cf, cf.Decl.Body, params)
-			return true
-		})
-		good = appendedDecls && checkOK
+				// (B) the declarations are appended (to the output list, or the constraint to them)
+				if isBuiltinCall(info, call, "append") {
+					for _, a := range call.Args {
+						if render(info, a, sub) == "$jvDecls" {
+							declsFlow = true
+						}
+					}
+				}
+				// (C) the CHECK text
+				if c2 := sprintfView(info, call); c2 != nil {
+					format, vas := verbArgs(info, c2)
+					if strings.Contains(format, "CHECK (%s(%s))") && len(vas) == 4 {
+						var a [4]string
+						for i := range a {
+							a[i] = render(info, vas[i].arg, sub)
+						}
+						if strings.HasPrefix(a[0], "gen.SQLTableName(") && strings.HasSuffix(a[0], ".TableName())") && a[2] == "$jvName" && a[1] == a[3] && a[1] == colOwner+".Field.Field.Name()" {
+							checkOK = true
+						}
+					}
+					return true
+				}
+				// a helper of the package: its parameters stand for the arguments
+				cf := w.Funcs[calleeOf(info, call)]
+				if cf == nil || cf.Pkg != gt.Pkg || cf == jv || cf == fi || cf.Decl.Body == nil || depth >= 2 {
+					return true
+				}
+				params := map[types.Object]string{}
+				k := 0
+				for _, f := range cf.Decl.Type.Params.List {
+					for _, nm := range f.Names {
+						if k < len(call.Args) {
+							params[cf.Pkg.TypesInfo.Defs[nm]] = render(info, call.Args[k], sub)
+						}
+						k++
+					}
+				}
+				scan(cf, cf.Decl.Body, params, depth+1)
+				return true
+			})
+		}
+		scan(gt, is.Body, nil, 0)
+		good = jvCalls == 1 && jvArgOK && declsFlow && checkOK
 		return true
 	})
 	r.cond(good, "AGR-C04b", gt.Name, "jsonb column: validators + CHECK calling the validator of that column's type", w.Pos(pos), "one branch appends jsonValidations(js) declarations and `ALTER TABLE <table> ADD CONSTRAINT <col>_gomacro CHECK (<validator>(<col>))` with the validator name returned for the same column", "the jsonb branch does not emit both the validator declarations and a CHECK that calls the validator named for this column's type on this column")
